@@ -137,6 +137,9 @@ func dataflowCase(c *Ctx, focus string) {
 			prog = templateNarrowProg(c.Plan)
 			narrow = true
 			c.Res.Probes["template-narrowing-program"]++
+		case 4:
+			prog = templateDeepDisabledProg(c.Plan)
+			c.Res.Probes["template-deep-disabled-program"]++
 		case 3:
 			prog = templateNestedProg(c.Plan)
 			nested = true
@@ -437,6 +440,87 @@ func templateNestedProg(plan *Tape) *Prog {
 	}
 	p.Pipelines = []*PipelineDef{row, top}
 	p.Top = &CallDef{Callee: "TOPX", Id: "TOPX", Binds: []Bind{{"n", lit(plan.Draw(10000)), false}}}
+	return p
+}
+
+// templateDeepDisabledProg: two to five levels of sub-pipeline calls, each with a
+// disabling condition computed at run time by its own stage, and in the innermost
+// pipeline several sibling stage calls each with a condition of its own.  A call runs
+// iff none of the conditions on its path is true (C03), whatever its siblings' are.
+func templateDeepDisabledProg(plan *Tape) *Prog {
+	p := &Prog{}
+	intT, boolT := Ty{Base: "int"}, Ty{Base: "bool"}
+	ref := func(call string, path ...string) *Expr { return &Expr{Kind: ERef, Call: call, Path: path} }
+	self := func(path ...string) *Expr { return &Expr{Kind: ERef, Self: true, Path: path} }
+	lit := func(v int) *Expr { return &Expr{Kind: ELit, Val: int64(v), T: intT} }
+	p.Stages = []*StageDef{
+		{Name: "FLAG", SrcKind: "comp", Ins: []Field{{"seed", intT}}, Outs: []Field{{"on", boolT}}},
+		{Name: "WORK", SrcKind: "comp", Ins: []Field{{"k", intT}}, Outs: []Field{{"res", intT}}},
+	}
+	depth := 2 + plan.Draw(4)
+	nsib := 2 + plan.Draw(3)
+	// flags: one per level, one per sibling
+	var flagNames []string
+	for i := 0; i < depth; i++ {
+		flagNames = append(flagNames, fmt.Sprintf("lv%d", i))
+	}
+	for i := 0; i < nsib; i++ {
+		flagNames = append(flagNames, fmt.Sprintf("sb%d", i))
+	}
+	var ins []Field
+	for _, f := range flagNames {
+		ins = append(ins, Field{f, boolT})
+	}
+	ins = append(ins, Field{"k", intT})
+	// innermost pipeline
+	leaf := &PipelineDef{Name: "LEAF", Ins: ins}
+	for i := 0; i < nsib; i++ {
+		c := &CallDef{Callee: "WORK", Id: fmt.Sprintf("S%d", i), Binds: []Bind{{"k", self("k"), false}},
+			Disabled: self(fmt.Sprintf("sb%d", i))}
+		leaf.Calls = append(leaf.Calls, c)
+		leaf.Outs = append(leaf.Outs, Field{fmt.Sprintf("r%d", i), intT})
+		leaf.Ret = append(leaf.Ret, Bind{fmt.Sprintf("r%d", i), ref(c.Id, "res"), false})
+	}
+	// the enclosing flags are inputs of LEAF only so that every level can pass all
+	// of them down; MRO wants every input used
+	leaf.Outs = append(leaf.Outs, Field{"seen", boolT.ArrayOf()})
+	var seen []*Expr
+	for i := 0; i < depth; i++ {
+		seen = append(seen, self(fmt.Sprintf("lv%d", i)))
+	}
+	leaf.Ret = append(leaf.Ret, Bind{"seen", &Expr{Kind: EArr, T: boolT.ArrayOf(), Elems: seen}, false})
+	p.Pipelines = []*PipelineDef{leaf}
+	prev := leaf
+	for lv := depth - 1; lv >= 1; lv-- {
+		pl := &PipelineDef{Name: fmt.Sprintf("LEVEL%d", lv), Ins: ins, Outs: prev.Outs}
+		c := &CallDef{Callee: prev.Name, Id: prev.Name, Disabled: self(fmt.Sprintf("lv%d", lv))}
+		for _, f := range ins {
+			c.Binds = append(c.Binds, Bind{f.Name, self(f.Name), false})
+		}
+		pl.Calls = []*CallDef{c}
+		for _, o := range prev.Outs {
+			pl.Ret = append(pl.Ret, Bind{o.Name, ref(prev.Name, o.Name), false})
+		}
+		p.Pipelines = append(p.Pipelines, pl)
+		prev = pl
+	}
+	top := &PipelineDef{Name: "TOPDD", Ins: []Field{{"k", intT}}, Outs: prev.Outs}
+	for i, f := range flagNames {
+		// enclosing flags are mostly false so that the inner calls are reached
+		seedv := plan.Draw(40)
+		top.Calls = append(top.Calls, &CallDef{Callee: "FLAG", Id: "F_" + f, Binds: []Bind{{"seed", lit(i*100 + seedv), false}}})
+	}
+	c := &CallDef{Callee: prev.Name, Id: prev.Name, Disabled: ref("F_lv0", "on")}
+	for _, f := range flagNames {
+		c.Binds = append(c.Binds, Bind{f, ref("F_"+f, "on"), false})
+	}
+	c.Binds = append(c.Binds, Bind{"k", self("k"), false})
+	top.Calls = append(top.Calls, c)
+	for _, o := range prev.Outs {
+		top.Ret = append(top.Ret, Bind{o.Name, ref(prev.Name, o.Name), false})
+	}
+	p.Pipelines = append(p.Pipelines, top)
+	p.Top = &CallDef{Callee: "TOPDD", Id: "TOPDD", Binds: []Bind{{"k", lit(plan.Draw(99)), false}}}
 	return p
 }
 
